@@ -4,6 +4,8 @@ import random
 import shutil
 import tempfile
 
+import struct
+
 import common
 import kdf_ref
 import probes
@@ -86,7 +88,13 @@ class Mitm:
                 p['data'] = kdf_ref.dh_public(p['group'], self.XA1)
             if p['t'] == W.SA and 'offer' in S:
                 prop = dict(p['proposals'][0])
-                prop['transforms'] = [t for t in prop['transforms'] if not (t['type'] == 1 and t['keylen'] == 256)]
+                if getattr(self, 'offer_style', 'remove') == 'remove':
+                    prop['transforms'] = [t for t in prop['transforms'] if not (t['type'] == 1 and t['keylen'] == 256)]
+                else:
+                    # the same reduction of the offer written differently: every transform stays, the preferred integrity transform gets an attribute
+                    # "Key Length = 0" - to a receiver it is not that transform any more (3.3.5), although a careless re-serialisation would drop the attribute
+                    first = next(t for t in prop['transforms'] if t['type'] == 3)
+                    prop['transforms'] = [dict(t, raw_attrs=struct.pack('>HH', 0x8000 | 14, 0)) if t is first else t for t in prop['transforms']]
                 p['proposals'] = [prop]
             pls.append(p)
         out = W.enc_message({'spi_i': spi_i, 'spi_r': m['spi_r'], 'xchg': 34, 'response': False, 'initiator': True, 'mid': 0}, pls)
@@ -283,8 +291,8 @@ def near_secret(right, kind):
                   'truncate': long[:-1], 'blank': long + ' '}[kind]
 
 
-def run_attack(actions, leaf, cred_i, cred_r, auth, seed, old_auth, r_variant=None, near='other'):
-    opts = {'ike_encr': ['aes256', 'aes128'], 'auth': auth}
+def run_attack(actions, leaf, cred_i, cred_r, auth, seed, old_auth, r_variant=None, near='other', offer_style='remove'):
+    opts = {'ike_encr': ['aes256', 'aes128'], 'ike_integ': ['sha256', 'sha1'], 'auth': auth}
     auth_request_template(auth)          # (its own world: before this one is made the current one)
     w = wd.World(opts=opts, seed=seed, start=False)
     if not cred_i:      # the responder's idea of the initiator's credential / identity is wrong
@@ -308,6 +316,7 @@ def run_attack(actions, leaf, cred_i, cred_r, auth, seed, old_auth, r_variant=No
     for e in 'AB':
         w.start(e)
     mitm = Mitm(w, auth, old_auth)
+    mitm.offer_style = offer_style
     trace = []
     try:
         cur = bytes(w.acquire('A'))
@@ -413,10 +422,14 @@ def run(tier, replay=None):
               for r_variant in ((None,) if cred_r else ('id', 'secret')):
                # how wrong the wrong secret is: every kind of near miss for the unmodified exchange, one kind (in turn) for every attack path
                nears = ('other',) if (cred_i and cred_r) or auth != 'psk' else (NEAR if changes(p) == 0 else (NEAR[pi % len(NEAR)],))
-               for near in nears:
-                got, want, trace = run_attack(actions, leaf, cred_i, cred_r, auth, common.SEED + pi, old_auth, r_variant=r_variant, near=near)
+               # how the reduced offer is written on the wire: the strong transform removed, or masked by an attribute that a re-serialisation would drop
+               styles = ('remove', 'mask') if any(x['a'] == 'Msg1' and 'offer' in x.get('s', []) for x in actions) else ('remove',)
+               for near, style in [(n_, s_) for n_ in nears for s_ in styles]:
+                got, want, trace = run_attack(actions, leaf, cred_i, cred_r, auth, common.SEED + pi, old_auth, r_variant=r_variant, near=near, offer_style=style)
                 if near != 'other':
                     trace = trace + [{'a': 'wrong-secret', 'forge': near}]
+                if style != 'remove':
+                    trace = trace + [{'a': 'offer-written-as', 'forge': style}]
                 n += 1
                 key = (tuple(sorted(want.items())) if isinstance(want, dict) else want)
                 outcomes[str(want)] = outcomes.get(str(want), 0) + 1
